@@ -1066,6 +1066,18 @@ func checkC16(h *XHistory) {
 					s.Probe("c16_tcp_outcome_returned")
 				}
 			}
+			// the TCP server answered properly, in good time and on a connection
+			// nothing happened to: that answer is the outcome the caller gets
+			if c.Msg == nil && len(tcpReplies) > 0 && inTime && c.C.CancelUs == 0 && !eventIn(h, c.C.Up, c.Start, c.End) && h.XP.Net.UpCorrupt == 0 && len(h.XP.Net.Partitions) == 0 {
+				tr := u.Replies[tcpReplies[0]]
+				_, gone := u.ConnGone[tr.Conn]
+				_, abandoned := u.ConnAbandoned[tr.Conn]
+				margin := 300*time.Millisecond + 20*us(h.XP.Net.UpLatUs[1]) + stallSlack(h.P)
+				if tr.At-tr.QueryAt < 3*time.Second && tr.At+margin < c.Start+c.Limit && !(gone && u.ConnGone[tr.Conn] <= tr.At) && !(abandoned && u.ConnAbandoned[tr.Conn] <= tr.At) {
+					s.Probe("c16_tcp_reply_in_time")
+					s.Fail("C16", "tcp-outcome-lost", "%s: UDP reply had TC, the TCP server answered properly with %d bytes at %v (the caller's limit ran until %v) and the caller got an error instead: %s", name, tr.Bytes, tr.At, c.Start+c.Limit, c.Err)
+				}
+			}
 			if c.Msg != nil && len(tcpReplies) == 0 {
 				s.Fail("C16", "message-without-tcp-reply", "%s: UDP reply had TC and TCP never answered, yet a message was returned", name)
 			}
